@@ -35,7 +35,7 @@ CFG = gen.Cfg(onesided=4, servable=3, facilities=True, max_tasks=6, max_time=[5,
               work_pool=[0.0, 0.5, 1.0, 1.0, 2.0, 3.0])
 # nested products only without workplaces here: backward_simulate reverses the dependencies, which turns the
 # assembly form around (parent tasks first) and leads into the nested-placement findings D-PLC2..4 of C13
-CFG_N = CFG.copy(nested="free", max_wps=0)
+CFG_N = CFG.copy(nested="free", max_wps=0, multi_parent=2)
 
 OPS = ["sim", "sim", "sim_keep_logs", "sim_keep_state", "resume", "pause", "backward", "backward", "initialize", "reverse"]
 
@@ -72,12 +72,12 @@ def strategy(tier):
 
 def budget(tier):
     if tier == "quick":
-        return {"cases": 1200, "shards": 4}
+        return {"cases": 3000, "shards": 6}
     return {"cases": 80000, "shards": 16}
 
 
 class LogModel(object):
-    """Reference model of every content log, keyed by (object ID, log name)."""
+    """Reference model of every content log, keyed by (kind:object ID, log name)."""
 
     def __init__(self):
         self.logs = {}
@@ -100,46 +100,46 @@ class LogModel(object):
             st_ = int(t.state)
             if not working and st_ == S.WORKING:
                 st_ = S.READY
-            self.add((t.ID, "state"), st_)
-            self.add((t.ID, "rem"), t.remaining_work_amount)
-            self.add((t.ID, "aw"), [w.ID for w in t.allocated_worker_list])
-            self.add((t.ID, "af"), [f.ID for f in t.allocated_facility_list])
+            self.add(("task:" + str(t.ID), "state"), st_)
+            self.add(("task:" + str(t.ID), "rem"), t.remaining_work_amount)
+            self.add(("task:" + str(t.ID), "aw"), [w.ID for w in t.allocated_worker_list])
+            self.add(("task:" + str(t.ID), "af"), [f.ID for f in t.allocated_facility_list])
         for c in project.product.component_list:
             st_ = int(c.state)
             if not working and st_ == S.WORKING:
                 st_ = S.READY
-            self.add((c.ID, "state"), st_)
-            self.add((c.ID, "placed"), c.placed_workplace.ID if c.placed_workplace is not None else None)
+            self.add(("comp:" + str(c.ID), "state"), st_)
+            self.add(("comp:" + str(c.ID), "placed"), c.placed_workplace.ID if c.placed_workplace is not None else None)
         for tm in project.organization.team_list:
             for w in tm.worker_list:
-                self.add((w.ID, "state"), int(w.state) if working else S.R_ABSENCE)
-                self.add((w.ID, "assigned"), [t.ID for t in w.assigned_task_list])
+                self.add(("worker:" + str(w.ID), "state"), int(w.state) if working else S.R_ABSENCE)
+                self.add(("worker:" + str(w.ID), "assigned"), [t.ID for t in w.assigned_task_list])
         for wp in project.organization.workplace_list:
-            self.add((wp.ID, "placed"), [c.ID for c in wp.placed_component_list])
+            self.add(("wp:" + str(wp.ID), "placed"), [c.ID for c in wp.placed_component_list])
             for f in wp.facility_list:
-                self.add((f.ID, "state"), int(f.state) if working else S.R_ABSENCE)
-                self.add((f.ID, "assigned"), [t.ID for t in f.assigned_task_list])
+                self.add(("fac:" + str(f.ID), "state"), int(f.state) if working else S.R_ABSENCE)
+                self.add(("fac:" + str(f.ID), "assigned"), [t.ID for t in f.assigned_task_list])
 
 
 def actual_logs(project):
     out = {}
     for t in project.workflow.task_list:
-        out[(t.ID, "state")] = [int(x) for x in t.state_record_list]
-        out[(t.ID, "rem")] = list(t.remaining_work_amount_record_list)
-        out[(t.ID, "aw")] = [list(x) if x is not None else None for x in t.allocated_worker_id_record]
-        out[(t.ID, "af")] = [list(x) if x is not None else None for x in t.allocated_facility_id_record]
+        out[("task:" + str(t.ID), "state")] = [int(x) for x in t.state_record_list]
+        out[("task:" + str(t.ID), "rem")] = list(t.remaining_work_amount_record_list)
+        out[("task:" + str(t.ID), "aw")] = [list(x) if x is not None else None for x in t.allocated_worker_id_record]
+        out[("task:" + str(t.ID), "af")] = [list(x) if x is not None else None for x in t.allocated_facility_id_record]
     for c in project.product.component_list:
-        out[(c.ID, "state")] = [int(x) for x in c.state_record_list]
-        out[(c.ID, "placed")] = list(c.placed_workplace_id_record)
+        out[("comp:" + str(c.ID), "state")] = [int(x) for x in c.state_record_list]
+        out[("comp:" + str(c.ID), "placed")] = list(c.placed_workplace_id_record)
     for tm in project.organization.team_list:
         for w in tm.worker_list:
-            out[(w.ID, "state")] = [int(x) for x in w.state_record_list]
-            out[(w.ID, "assigned")] = [list(x) if x is not None else None for x in w.assigned_task_id_record]
+            out[("worker:" + str(w.ID), "state")] = [int(x) for x in w.state_record_list]
+            out[("worker:" + str(w.ID), "assigned")] = [list(x) if x is not None else None for x in w.assigned_task_id_record]
     for wp in project.organization.workplace_list:
-        out[(wp.ID, "placed")] = [list(x) if x is not None else None for x in wp.placed_component_id_record]
+        out[("wp:" + str(wp.ID), "placed")] = [list(x) if x is not None else None for x in wp.placed_component_id_record]
         for f in wp.facility_list:
-            out[(f.ID, "state")] = [int(x) for x in f.state_record_list]
-            out[(f.ID, "assigned")] = [list(x) if x is not None else None for x in f.assigned_task_id_record]
+            out[("fac:" + str(f.ID), "state")] = [int(x) for x in f.state_record_list]
+            out[("fac:" + str(f.ID), "assigned")] = [list(x) if x is not None else None for x in f.assigned_task_id_record]
     return out
 
 
